@@ -1,5 +1,6 @@
 import Qentem.Proofs.TmplText
 import Qentem.Proofs.ExprScanSafe
+import Qentem.Proofs.ExprScanTotal
 import Qentem.Proofs.TmplRenderSafe
 import Qentem.Proofs.TmplParseVarRaw
 import Qentem.Proofs.TmplLoopVar
@@ -85,6 +86,13 @@ range, every nesting of parentheses, every number reader. -/
 theorem expr_scan_safe {R : Type} (cfg : ScanCfg R) (c : List Nat) (off endO : Nat)
     (he : endO < c.length) : Safe (parseTop cfg c off endO) (fun _ => True) :=
   parseTop_safe cfg c off endO he
+
+/-- `expr_scan_total`: under the same hypothesis the scanner model returns a list — neither a
+failed read nor an exhausted fuel; so `expr_scan_safe` and the `Safe` statements built on it are
+not vacuous through the model's fuel. -/
+theorem expr_scan_total {R : Type} (cfg : ScanCfg R) (c : List Nat) (off endO : Nat)
+    (he : endO < c.length) : ∃ items, parseTop cfg c off endO = .ok items :=
+  parseTop_total cfg c off endO he
 
 /-- the hypothesis is needed: the public `ParseExpressions("1<", 2)` looks one unit past the
 buffer (out of contract: no terminator).  Observed on the real code as an ASan report. -/
